@@ -297,14 +297,35 @@ def analyse(ck):
         ob.add({"C20", "C21"}, okr, "PAIR", name + "/retain-paired",
                "%s: a proof is dropped from its bucket iff %s, and exactly then every one of its nullifiers is removed from the index (same closure, same branch)" % (name, pred_desc), rets[0].loc if rets else mv.loc0, det)
         # evicted counter returned
-        ret_local = None
+        # the returned value is a local that starts at 0, is never assigned again in this body, and is lent `&mut` to a closure
+        # (the one counter store found above sits in the eviction branch of the retain closure) — independent of its name
+        ret_l = None
+        inits, refs, closure_ops = {}, {}, set()
         for blk_ in mv.body.blocks:
+            if blk_["cleanup"]:
+                continue
             for st_ in blk_["s"]:
-                if "d" in st_ and st_["d"]["l"] == 0 and not st_["d"]["p"] and st_["r"]["k"] == "use":
-                    pl_ = st_["r"]["a"].get("c") or st_["r"]["a"].get("m")
+                if "d" not in st_:
+                    continue
+                d_, r_ = st_["d"], st_["r"]
+                if d_["l"] == 0 and not d_["p"] and r_["k"] == "use":
+                    pl_ = r_["a"].get("c") or r_["a"].get("m")
                     if pl_ and not pl_["p"]:
-                        ret_local = mv.body.local_name(pl_["l"])
-        ob.add({"C21"}, ret_local == "evicted", "TERM", name + "/returns-count", "%s returns the eviction counter that is incremented in that same branch" % name, mv.loc0, ret_local)
+                        ret_l = pl_["l"]
+                if not d_["p"]:
+                    inits.setdefault(d_["l"], []).append(r_)
+                if r_["k"] == "ref" and r_.get("mut") and not r_["p"]["p"] and not d_["p"]:
+                    refs[d_["l"]] = r_["p"]["l"]
+                if r_["k"] == "agg" and r_["ak"].get("t") == "closure":
+                    for o_ in r_["ops"]:
+                        pl_ = o_.get("c") or o_.get("m")
+                        if pl_ and not pl_["p"]:
+                            closure_ops.add(pl_["l"])
+        ini = inits.get(ret_l, [])
+        counted = (ret_l is not None and len(ini) == 1 and ini[0]["k"] == "use" and "k" in ini[0]["a"] and ini[0]["a"]["k"].get("v") == "0"
+                   and any(src == ret_l and tmp in closure_ops for tmp, src in refs.items()))
+        ob.add({"C21"}, counted and okr, "TERM", name + "/returns-count", "%s returns the eviction counter (initialised to 0, lent &mut to the retain closure, incremented in that same branch)" % name, mv.loc0,
+               mv.body.local_name(ret_l) if ret_l is not None else None)
         # empty buckets removed
         if name == "evict_settled":
             rm = [e for e in mv.effects if e.raw.get("name") == "remove" and P.param_path(e.args[0]) == "self.buckets"]
